@@ -21,6 +21,7 @@
 import DateutilVerif.Proofs.IsoErrors
 import DateutilVerif.Proofs.IsoTzSound
 import DateutilVerif.Proofs.IsoSound
+import DateutilVerif.Proofs.IsoGenEq
 namespace C20
 open Iso Py
 
@@ -120,6 +121,52 @@ theorem sep_exact (c : Nat) (s : Bytes) (v : Result) (h : isoparse (some c) s = 
 theorem fields_are_digits (f : Bytes) (w : Nat) (v : Int) (hw : 0 < w) :
     parseDigits f w = .ok v ↔ (f.length = w ∧ f.all isDigit = true ∧ v = (digitsVal f : Nat)) :=
   parseDigits_ok_iff f w v hw
+
+/-! ### the same facts about the functions TRANSLATED from isoparser.py on every run
+(`Gen.*`, Generated/IsoKernels.lean, produced by harness/translate_bytes.py): an edit to the source that
+changes the behaviour of `_parse_digits`, `_parse_tzstr`, `_calculate_weekdate`, `_parse_isodate_common`,
+`_parse_isodate_uncommon` or `_parse_isodate` breaks the equality lemmas of Proofs/IsoGenEq.lean and with them
+these obligations. -/
+
+/-- the translated `_parse_digits` accepts exactly `width` ASCII digits, read in decimal -/
+theorem fields_are_digits_gen (f : Bytes) (w : Nat) (v : Int) (hw : 0 < w) :
+    Gen.parseDigits f (w : Int) = .ok v ↔ (f.length = w ∧ f.all isDigit = true ∧ v = (digitsVal f : Nat)) := by
+  rw [IsoGen.parseDigits_eq]; exact parseDigits_ok_iff f w v hw
+
+/-- complete soundness of the translated `_parse_tzstr` -/
+theorem parse_tzstr_sound_gen (s : Bytes) (z : Bool) (v : Off) (h : Gen.parseTzstr s z = .ok v) :
+    ∃ o x, o ≠ IsoSpec.OffForm.naive ∧ IsoSpec.offWF o x = true ∧ s = IsoSpec.renderOff o x ∧
+      v = offValue z o x := by
+  rw [IsoGen.parseTzstr_eq] at h; exact parseTzstr_sound s z v h
+
+theorem parse_tzstr_errors_ValueError_gen (s : Bytes) (z : Bool) (e : PyErr)
+    (h : Gen.parseTzstr s z = .error e) : e = .ValueError := by
+  rw [IsoGen.parseTzstr_eq] at h; exact onlyVE_parseTzstr s z e h
+
+/-- soundness of the translated date scanner `_parse_isodate` (common, falling back to uncommon): what it accepts
+    is the rendering of a date form followed by the unread suffix, the returned position is the length of that
+    rendering, and the components are the ones the form denotes -/
+theorem parse_isodate_scan_sound_gen (s : Bytes) (comps : List BytesPy.Comp) (pos : Int)
+    (h : Gen.parseIsodate s = .ok (comps, pos)) :
+    ∃ df x y m d rest, s = IsoSpec.renderDate df x ++ rest ∧ pos = ((IsoSpec.renderDate df x).length : Int) ∧
+      comps = [.int y, .int m, .int d] ∧ DateScan df x (y, m, d) rest := by
+  rw [IsoGen.parseIsodate_eq] at h
+  cases hp : parseIsodate s with
+  | error e => rw [hp] at h; cases h
+  | ok p =>
+    obtain ⟨⟨y, m, d⟩, rest⟩ := p
+    rw [hp] at h
+    simp only [Except.map, IsoGen.dateOut, Except.ok.injEq, Prod.mk.injEq] at h
+    obtain ⟨df, x, es, hsc⟩ := parseIsodate_inv s _ _ hp
+    refine ⟨df, x, y, m, d, rest, es, ?_, h.1.symm, hsc⟩
+    rw [← h.2, es]; simp
+
+theorem parse_isodate_scan_errors_ValueError_gen (s : Bytes) (e : PyErr)
+    (h : Gen.parseIsodate s = .error e) : e = .ValueError := by
+  rw [IsoGen.parseIsodate_eq] at h
+  cases hp : parseIsodate s with
+  | error e' => rw [hp] at h; cases h; exact onlyVE_parseIsodate s _ hp
+  | ok p => rw [hp] at h; cases h
 
 /-! non-vacuity -/
 example : isoparse none [50,48,49,52,45,48,49,45,48,49,84,50,53] = .error .ValueError := by decide +kernel
